@@ -3,6 +3,7 @@ package main
 import (
 	"fmt"
 	"go/ast"
+	"go/token"
 	"go/types"
 	"regexp"
 	"sort"
@@ -36,10 +37,12 @@ var c20Mutators = map[string]string{
 	"os.Chmod": "chmod", "(*os.File).Chmod": "chmod", "os.Chown": "chmod",
 }
 
-// c20Reach: the kinds of os mutators a function transitively reaches through static module callees and closures.
+// c20Reach: the kinds of os mutators a function transitively reaches through static module callees, closures and function values.
 func c20Reach(w *World, fn *ssa.Function) map[string]bool {
 	out := map[string]bool{}
-	for _, f := range w.moduleCallees(fn) {
+	// c20Tree: static module callees, function literals, and functions that run only as values handed on (a method value
+	// given to WalkDir is part of the tree like a function literal) — more effects are found, never fewer
+	for _, f := range c20Tree(w, fn) {
 		for _, ci := range allCalls(f) {
 			if k, ok := c20Mutators[calleeName(ci)]; ok {
 				out[k] = true
@@ -235,6 +238,14 @@ func runC20(c *Ctx) {
 	// the certified validator
 	if v := w.Func("internal/file", "IsValidFileName"); v != nil {
 		ok, why := certifyFileNameValidator(w, v)
+		if !ok {
+			// the same language written as a scan over the bytes of the name (see c20CertifyByteScan for the argument)
+			if ok2, why2 := c20CertifyByteScan(w, v); ok2 {
+				ok, why = true, ""
+			} else {
+				why += "; read as a scan over the bytes of the name: " + why2
+			}
+		}
 		c.Check(ok, "gates/name-validator", "the name validator accepts only single path components (no separator, NUL, empty, dot names)", w.FnPos(v), why)
 	}
 	if gateCall != nil {
@@ -256,8 +267,14 @@ func c20Table(c *Ctx, INST *ssa.Function, effects []c20Effect, optsP, boolField 
 	var parseC *ssa.Call
 	for _, ci := range allCalls(INST) {
 		if cc, ok := ci.(*ssa.Call); ok {
-			if g := staticCallee(cc); g != nil && w.IsProductFn(g) && g.Signature.Results().Len() == 3 && len(cc.Call.Args) == 2 && strings.HasPrefix(desc(cc.Call.Args[1]), optsP+".") {
-				parseC = cc
+			// by role, not by argument position: the module function with results (file, name, error) that is handed a field
+			// of the install options (the source path) — whatever else it receives (a context, a logger)
+			if g := staticCallee(cc); g != nil && w.IsProductFn(g) && g.Signature.Results().Len() == 3 && isErrorType(g.Signature.Results().At(2).Type()) {
+				for _, a := range cc.Call.Args {
+					if strings.HasPrefix(desc(a), optsP+".") {
+						parseC = cc
+					}
+				}
 			}
 		}
 	}
@@ -266,11 +283,11 @@ func c20Table(c *Ctx, INST *ssa.Function, effects []c20Effect, optsP, boolField 
 		return
 	}
 	type scen struct {
-		src          string // dir | file | err
-		ov           bool
-		get          string // nil | notexist | other
-		md, cmpErr   bool
-		comp         int64
+		src        string // dir | file | err
+		ov         bool
+		get        string // nil | notexist | other
+		md, cmpErr bool
+		comp       int64
 	}
 	var cur scen
 	errOf := func(v ssa.Value, call *ssa.Call) bool {
@@ -595,67 +612,64 @@ func c20Discovery(c *Ctx, INST *ssa.Function) {
 	w := c.W
 	// every WalkDir callback of the install tree
 	n := 0
-	var PARSE *ssa.Function
-	for _, f := range w.moduleCallees(INST) {
+	for _, f := range c20Tree(w, INST) {
 		for _, ci := range findCalls(f, "path/filepath.WalkDir") {
-			mc, ok := unwrap(ci.Common().Args[1]).(*ssa.MakeClosure)
-			var cl *ssa.Function
-			if ok {
-				cl, _ = mc.Fn.(*ssa.Function)
-			} else if fn, isFn := unwrap(ci.Common().Args[1]).(*ssa.Function); isFn {
-				cl = fn
-			}
-			if cl == nil {
-				c.Unk("discovery/walk-callback", "the WalkDir callback is a function literal", w.InstrPos(ci), "not recognised")
+			k := c20ResolveWalk(w, f, ci)
+			if k == nil {
+				c.Unk("discovery/walk-callback", "the WalkDir callback is a function literal, a method value with pointer receiver or a function", w.InstrPos(ci), "not recognised")
 				continue
 			}
 			n++
-			c.SeenFn(cl.String())
-			root := ci.Common().Args[0]
-			c20SkipDir(c, f, cl, root, mc)
+			c.SeenFn(k.cb.String())
+			c20SkipDirW(c, k)
 			if f.Signature.Results().Len() == 3 {
-				PARSE = f
-				c20Candidates(c, f, cl)
+				c20CandidatesW(c, k)
 			} else {
-				c20DirCopy(c, f, cl)
+				c20DirCopyW(c, k)
 			}
 		}
 	}
 	if n < 2 {
 		c.Unk("discovery#count", "vacuity guard: WalkDir callbacks in the install call tree (source parser, directory copy)", "-", fmt.Sprintf("%d", n))
 	}
-	_ = PARSE
 }
 
 // c20SkipDir: for a directory entry other than the walk root the callback returns SkipDir.
+// (Kept for callers that hold the parts of a walk; the rule itself is c20SkipDirW.)
 func c20SkipDir(c *Ctx, outer, cl *ssa.Function, root ssa.Value, mc *ssa.MakeClosure) {
+	for _, ci := range findCalls(outer, "path/filepath.WalkDir") {
+		if k := c20ResolveWalk(c.W, outer, ci); k != nil && k.cb == cl && k.mc == mc && ci.Common().Args[0] == root {
+			c20SkipDirW(c, k)
+			return
+		}
+	}
+	c.Bad("discovery/skip-sub-directories/"+fnName(outer), "the WalkDir callback returns SkipDir for every directory entry whose path differs from the walk root (sub-directories are never entered, whatever their name)", c.W.FnPos(cl), "the walk of this callback was not found")
+}
+
+// c20SkipDirW. The callback sees the walk root through a cell it shares with the function that started the walk (a
+// captured variable, or a field of the object a method value is bound to): the cell holds, at the WalkDir call, the very
+// value that is passed as the root, the callback never assigns it, and nothing else can (c20Walk.confined) — so a load
+// of that cell inside the callback is the walk root in either form.
+func c20SkipDirW(c *Ctx, k *c20Walk) {
 	w := c.W
+	outer, cl := k.outer, k.cb
 	fi := w.Info(cl)
 	key := "discovery/skip-sub-directories/" + fnName(outer)
 	rule := "the WalkDir callback returns SkipDir for every directory entry whose path differs from the walk root (sub-directories are never entered, whatever their name)"
-	// the root as seen inside the closure
-	rootIn := ""
-	rd := desc(root)
-	if mc != nil {
-		for i, b := range mc.Bindings {
-			bd := desc(b)
-			// binding is the address of the variable that holds the root
-			if al, ok := b.(*ssa.Alloc); ok {
-				if "alloc:string<"+al.Comment+">" == rd || desc(al) == rd {
-					rootIn = "free:" + cl.FreeVars[i].Name()
-				}
-			}
-			if bd == rd {
-				rootIn = "free:" + cl.FreeVars[i].Name()
-			}
-		}
-	}
-	if rootIn == "" {
+	// the root as seen inside the callback
+	rd := desc(k.call.Common().Args[0])
+	rc := k.rootCell()
+	if rc < 0 {
 		c.Bad(key, rule, w.FnPos(cl), "the callback does not see the walk root "+rd)
 		return
 	}
-	p := "param:" + cl.Params[0].Name()
-	d := "param:" + cl.Params[1].Name()
+	if ok, why := k.confined(); !ok {
+		c.Bad(key, rule, w.FnPos(cl), "the state shared between "+fnName(outer)+" and the callback is not confined to them: "+why)
+		return
+	}
+	rootIn := k.innerDesc(rc)
+	p := "param:" + k.pathParam().Name()
+	d := "param:" + k.entryParam().Name()
 	isDirT := "T(call:invoke:io/fs.DirEntry.IsDir(" + d + "))"
 	var starts []state
 	for _, b := range cl.Blocks {
@@ -705,17 +719,34 @@ func c20SkipDir(c *Ctx, outer, cl *ssa.Function, root ssa.Value, mc *ssa.MakeClo
 	c.Check(okAll, key, rule, w.FnPos(cl), detail)
 }
 
-// c20Candidates: the source parser.
+// c20Candidates: the source parser. (Kept for callers that hold the parts of a walk; the rule itself is c20CandidatesW.)
 func c20Candidates(c *Ctx, P, cl *ssa.Function) {
+	for _, ci := range findCalls(P, "path/filepath.WalkDir") {
+		if k := c20ResolveWalk(c.W, P, ci); k != nil && k.cb == cl {
+			c20CandidatesW(c, k)
+			return
+		}
+	}
+	c.Bad("discovery/pair-from-same-entry", "the (executable, name) pair recorded for an executable entry is that entry's path and the name parsed from that entry's own file name", c.W.FnPos(cl), "the walk of this callback was not found")
+}
+
+// c20CandidatesW: the source parser, decided on the cells the callback shares with the parser (c20Walk) instead of on
+// captured variables only. What a load of a cell yields is decided by reaching definitions: after the walk, and with
+// no store of the parser in between, a cell holds what the callback left there; a cell the parser itself assigned
+// (`name, err = parse(Base(candidate))` into an already declared variable) holds that assigned value — the cells are
+// confined to the two functions, so no call in between can change them.
+func c20CandidatesW(c *Ctx, k *c20Walk) {
 	w := c.W
+	P, cl := k.outer, k.cb
 	fi := w.Info(cl)
-	p := "param:" + cl.Params[0].Name()
-	d := "param:" + cl.Params[1].Name()
+	p := "param:" + k.pathParam().Name()
+	d := "param:" + k.entryParam().Name()
+	parser := c20NameParser(w)
 	// helpers by role, never by name: the file-name parser (string -> (string, error), cuts the binary prefix),
 	// the executable test ((string) -> (bool, error), applied to the entry path), the chmod helper ((string) -> error)
 	PN, EXE, SETX := "call:?", "call:?", "call:?"
-	if f := c20NameParser(w); f != nil {
-		PN = "call:" + fnName(f)
+	if parser != nil {
+		PN = "call:" + fnName(parser)
 	}
 	for _, f := range []*ssa.Function{cl, P} {
 		for _, ci := range allCalls(f) {
@@ -735,107 +766,164 @@ func c20Candidates(c *Ctx, P, cl *ssa.Function) {
 			}
 		}
 	}
-	// stores to captured variables
-	type cap struct {
-		st *ssa.Store
-		fv string
-	}
-	var caps []cap
-	for _, b := range cl.Blocks {
-		for _, in := range b.Instrs {
-			if st, ok := in.(*ssa.Store); ok {
-				if fv, ok := st.Addr.(*ssa.FreeVar); ok {
-					caps = append(caps, cap{st, fv.Name()})
-				}
-			}
-		}
-	}
+	conf, confWhy := k.confined()
+	// stores to shared cells
+	caps := k.stores(true)
 	reg := "T(call:(io/fs.FileMode).IsRegular(call:invoke:io/fs.FileInfo.Mode(call:invoke:io/fs.DirEntry.Info(" + d + ")#0)))"
 	okReg := len(caps) > 0
 	for _, cp := range caps {
-		g := fi.GuardsOf(cp.st)
-		if !labelHas(g, reg) && cp.st.Block().Index != 0 {
-			okReg = false
-		}
-		if cp.st.Block().Index == 0 {
+		if cp.st.Block().Index == 0 || !labelHas(fi.GuardsOf(cp.st), reg) {
 			okReg = false
 		}
 	}
 	c.Check(okReg, "discovery/regular-files-only", "the callback records candidates only for entries whose own Info says regular file", w.FnPos(cl), "")
-	// the executable/name pair
-	var stFile, stName *ssa.Store
-	// which captured variables does the outer function return?
+	// the exits of the parser: "found" exits return what the walk left in two cells; every other one is a fallback
 	s := w.Summarize(P, Mode{Kind: mErr})
 	c.Evals += s.States
-	retFile, retName := "", ""
-	var fallback *ExitSum
+	type pair struct{ f, n int }
+	found := map[pair]bool{}
+	var fallbacks []*ExitSum
+	var odd []string
 	for _, e := range s.Exits {
-		f, n := desc(e.Ret.Results[0]), desc(e.Ret.Results[1])
-		if strings.HasPrefix(f, "alloc:string<") && strings.HasPrefix(n, "alloc:string<") {
-			retFile = strings.TrimSuffix(strings.TrimPrefix(f, "alloc:string<"), ">")
-			retName = strings.TrimSuffix(strings.TrimPrefix(n, "alloc:string<"), ">")
-		} else {
-			fallback = e
+		if len(e.Ret.Results) < 3 {
+			continue
+		}
+		fc, _, fok := k.value(e.Ret.Results[0], false)
+		nc, _, nok := k.value(e.Ret.Results[1], false)
+		switch {
+		case fok && nok && fc >= 0 && nc >= 0:
+			found[pair{fc, nc}] = true
+		case fok && fc < 0:
+			fallbacks = append(fallbacks, e)
+		default:
+			odd = append(odd, w.InstrPos(e.Ret))
 		}
 	}
-	for _, cp := range caps {
-		if cp.fv == retFile {
-			stFile = cp.st
-		}
-		if cp.fv == retName {
-			stName = cp.st
-		}
-	}
+	parsedName := "call:invoke:io/fs.DirEntry.Name(" + d + ")"
+	parsed := PN + "(" + parsedName + ")"
+	parsed0 := callForm(parser, 0, parsedName)
 	rule := "the (executable, name) pair recorded for an executable entry is that entry's path and the name parsed from that entry's own file name in the same callback invocation; a second executable is refused"
-	if stFile == nil || stName == nil {
-		c.Bad("discovery/pair-from-same-entry", rule, w.FnPos(cl), fmt.Sprintf("the values returned on the found-executable exit (%s, %s) are not set by the callback", retFile, retName))
-	} else {
-		g := fi.GuardsOf(stName)
-		okFile := desc(stFile.Val) == p && stFile.Block() == stName.Block()
-		parsed := PN + "(call:invoke:io/fs.DirEntry.Name(" + d + "))"
-		parsed0 := callForm(c20NameParser(w), 0, "call:invoke:io/fs.DirEntry.Name("+d+")")
-		okName := desc(stName.Val) == parsed0
-		if !okName {
-			// through a captured variable assigned in this invocation on every path to the store
-			if un, ok := stName.Val.(*ssa.UnOp); ok {
-				if fv, ok := un.X.(*ssa.FreeVar); ok {
-					for _, cp := range caps {
-						if cp.fv == fv.Name() && desc(cp.st.Val) == parsed0 && cp.st.Block().Dominates(stName.Block()) {
-							okName = true
-							// no other store to it in between on the path
-							for _, cp2 := range caps {
-								if cp2.fv == fv.Name() && cp2.st != cp.st {
-									okName = false
-								}
-							}
-						}
-					}
-				}
+	// the bool cells that mark "an executable was recorded": set to true together with the pair, and tested false before
+	marks := map[int]bool{}
+	switch {
+	case len(odd) > 0:
+		c.Bad("discovery/pair-from-same-entry", rule, odd[0], "the values returned on this exit are not decided by one definition (a cell the walk filled in, or one assignment)")
+	case len(found) != 1:
+		c.Bad("discovery/pair-from-same-entry", rule, w.FnPos(cl), fmt.Sprintf("the values returned on the found-executable exit are not set by the callback (%d exits return what the walk left in two shared cells)", len(found)))
+	case !conf:
+		c.Bad("discovery/pair-from-same-entry", rule, w.FnPos(cl), "the state shared between the parser and the callback is not confined to them: "+confWhy)
+	default:
+		var pr pair
+		for q := range found {
+			pr = q
+		}
+		var stsF, stsN []*ssa.Store
+		for _, cp := range caps {
+			if cp.cell == pr.f {
+				stsF = append(stsF, cp.st)
+			}
+			if cp.cell == pr.n {
+				stsN = append(stsN, cp.st)
 			}
 		}
-		gates := labelHas(g, "EQ("+parsed+"#err,nil)") && labelHas(g, "T("+EXE+"("+p+")#0)") && labelHas(g, "EQ("+EXE+"("+p+")#err,nil)")
-		_, second := hasLabel(g, "F(free:")
-		c.Check(okFile && okName && gates && second, "discovery/pair-from-same-entry", rule, w.InstrPos(stName), fmt.Sprintf("path is the entry=%v name parsed from the entry=%v gates(parse ok, executable)=%v second-executable refused=%v", okFile, okName, gates, second))
+		okFile, okName, gates, second := len(stsF) > 0 && len(stsN) > 0, true, true, true
+		site := w.FnPos(cl)
+		for _, stF := range stsF {
+			partner := false
+			for _, stN := range stsN {
+				if stN.Block() == stF.Block() {
+					partner = true
+				}
+			}
+			if !partner || stF.Val != ssa.Value(k.pathParam()) {
+				okFile = false
+			}
+		}
+		for _, stN := range stsN {
+			site = w.InstrPos(stN)
+			partner := false
+			for _, stF := range stsF {
+				if stN.Block() == stF.Block() {
+					partner = true
+				}
+			}
+			if !partner {
+				okFile = false
+			}
+			// the name: parsed from this entry's name, directly or through a cell assigned in this invocation on every path to the store
+			nv := stN.Val
+			if _, x, ok := k.value(nv, true); ok && x != nil {
+				nv = x
+			}
+			if parser == nil || desc(nv) != parsed0 {
+				okName = false
+			}
+			g := fi.GuardsOf(stN)
+			if !(labelHas(g, "EQ("+parsed+"#err,nil)") && labelHas(g, "T("+EXE+"("+p+")#0)") && labelHas(g, "EQ("+EXE+"("+p+")#err,nil)")) {
+				gates = false
+			}
+			has := false
+			for _, cp := range caps {
+				if !k.cellIsBool(cp.cell) || desc(cp.st.Val) != "const:true" {
+					continue
+				}
+				near := cp.st.Block() == stN.Block() || cp.st.Block().Dominates(stN.Block()) || stN.Block().Dominates(cp.st.Block())
+				if near && labelHas(g, "F("+k.innerDesc(cp.cell)+")") && labelHas(fi.GuardsOf(cp.st), "F("+k.innerDesc(cp.cell)+")") {
+					marks[cp.cell] = true
+					has = true
+				}
+			}
+			if !has {
+				second = false
+			}
+		}
+		c.Check(okFile && okName && gates && second, "discovery/pair-from-same-entry", rule, site, fmt.Sprintf("path is the entry=%v name parsed from the entry=%v gates(parse ok, executable)=%v second-executable refused=%v", okFile, okName, gates, second))
 	}
 	// the fallback: single non-executable candidate
 	rule = "the fallback (no executable found) is taken only with exactly one well-named regular file; it returns that file and the name parsed from that file's own base name, after setting its executable bit succeeded"
-	if fallback == nil {
+	if len(fallbacks) == 0 {
 		c.OK("discovery/fallback-pair", rule+" (no fallback exit present)", w.FnPos(P))
-	} else {
-		f, n := desc(fallback.Ret.Results[0]), desc(fallback.Ret.Results[1])
-		okN := n == callForm(c20NameParser(w), 0, "call:path/filepath.Base("+f+")")
-		okL := strings.HasSuffix(f, "[const:0]") && labelHas(fallback.Checked, "EQ(len("+strings.TrimSuffix(f, "[const:0]")+"),const:1)")
-		okE := labelHas(fallback.Checked, "EQ("+PN+"(call:path/filepath.Base("+f+"))#err,nil)") && labelHas(fallback.Checked, "EQ("+SETX+"("+f+")#err,nil)")
-		_, okF := hasLabel(fallback.Checked, "F(alloc:bool<")
-		// the list holds the callback's well-named regular entries
-		okSrc := false
-		lst := strings.TrimSuffix(strings.TrimPrefix(strings.TrimSuffix(f, "[const:0]"), "alloc:[]string<"), ">")
-		for _, cp := range caps {
-			if cp.fv == lst && strings.HasPrefix(desc(cp.st.Val), "call:builtin:append(free:"+lst+",{"+p+"})") {
-				g := fi.GuardsOf(cp.st)
-				if labelHas(g, "EQ("+PN+"(call:invoke:io/fs.DirEntry.Name("+d+"))#err,nil)") {
-					okSrc = true
+	}
+	for _, fallback := range fallbacks {
+		r0 := fallback.Ret.Results[0]
+		r1 := fallback.Ret.Results[1]
+		if _, x, ok := k.value(r1, false); ok && x != nil {
+			r1 = x // a variable the parser assigned and nothing could change since
+		}
+		f, n := desc(r0), desc(r1)
+		// the list: the returned file is element 0 of what the walk left in a shared cell
+		L := -1
+		if u, ok := r0.(*ssa.UnOp); ok && u.Op == token.MUL {
+			if ia, ok := u.X.(*ssa.IndexAddr); ok {
+				if cell, _, ok := k.value(ia.X, false); ok && cell >= 0 {
+					L = cell
 				}
+			}
+		}
+		okN := parser != nil && n == callForm(parser, 0, "call:path/filepath.Base("+f+")")
+		okL, okSrc := false, false
+		if L >= 0 && conf {
+			lst := k.outerDesc(L)
+			okL = f == lst+"[const:0]" && labelHas(fallback.Checked, "EQ(len("+lst+"),const:1)") && k.seesOnlyWalk(L)
+			// the list holds the callback's well-named regular entries
+			n := 0
+			okSrc = true
+			for _, cp := range caps {
+				if cp.cell != L {
+					continue
+				}
+				n++
+				if !strings.HasPrefix(desc(cp.st.Val), "call:builtin:append("+k.innerDesc(L)+",{"+p+"})") || !labelHas(fi.GuardsOf(cp.st), "EQ("+parsed+"#err,nil)") {
+					okSrc = false
+				}
+			}
+			okSrc = okSrc && n > 0
+		}
+		okE := labelHas(fallback.Checked, "EQ("+PN+"(call:path/filepath.Base("+f+"))#err,nil)") && labelHas(fallback.Checked, "EQ("+SETX+"("+f+")#err,nil)")
+		okF := false
+		for _, b := range c20SortedInts(marks) {
+			if labelHas(fallback.Checked, "F("+k.outerDesc(b)+")") && k.seesOnlyWalk(b) {
+				okF = true
 			}
 		}
 		c.Check(okN && okL && okE && okF && okSrc, "discovery/fallback-pair", rule, w.InstrPos(fallback.Ret), fmt.Sprintf("name from that file=%v exactly one=%v errors checked=%v only without executable=%v list of well-named entries=%v (returns %s, %s)", okN, okL, okE, okF, okSrc, trunc(f, 60), trunc(n, 90)))
@@ -848,11 +936,26 @@ func c20Candidates(c *Ctx, P, cl *ssa.Function) {
 }
 
 // c20DirCopy: the directory copy copies every regular top-level file with the single-file copy.
+// (Kept for callers that hold the parts of a walk; the rule itself is c20DirCopyW.)
 func c20DirCopy(c *Ctx, D, cl *ssa.Function) {
+	for _, ci := range findCalls(D, "path/filepath.WalkDir") {
+		if k := c20ResolveWalk(c.W, D, ci); k != nil && k.cb == cl {
+			c20DirCopyW(c, k)
+			return
+		}
+	}
+	c.Bad("copy/directory", "the directory copy copies entries with the module's single-file copy", c.W.FnPos(cl), "the walk of this callback was not found")
+}
+
+// c20DirCopyW. The destination handed to the single-file copy is read from a cell the callback shares with the directory
+// copy (captured variable or field of the bound object) that the callback never assigns and that holds, when the walk
+// starts, a parameter of the directory copy other than the walk root — i.e. the destination directory the caller named.
+func c20DirCopyW(c *Ctx, k *c20Walk) {
 	w := c.W
+	D, cl := k.outer, k.cb
 	fi := w.Info(cl)
-	p := "param:" + cl.Params[0].Name()
-	d := "param:" + cl.Params[1].Name()
+	p := "param:" + k.pathParam().Name()
+	d := "param:" + k.entryParam().Name()
 	var cp *ssa.Call
 	for _, ci := range allCalls(cl) {
 		if cc, ok := ci.(*ssa.Call); ok {
@@ -867,7 +970,7 @@ func c20DirCopy(c *Ctx, D, cl *ssa.Function) {
 	}
 	g := fi.GuardsOf(cp)
 	reg := "T(call:(io/fs.FileMode).IsRegular(call:invoke:io/fs.FileInfo.Mode(call:invoke:io/fs.DirEntry.Info(" + d + ")#0)))"
-	okArgs := desc(cp.Call.Args[0]) == p && strings.HasPrefix(desc(cp.Call.Args[1]), "free:")
+	okArgs := len(cp.Call.Args) == 2 && desc(cp.Call.Args[0]) == p && c20WalkSeesOuterParam(k, cp.Call.Args[1])
 	// its error is returned
 	okErr := false
 	for _, r := range *cp.Referrers() {
@@ -968,17 +1071,50 @@ func c20Names(c *Ctx) {
 	okB := prefix != "" && (bd == "("+q+" + param:"+B.Params[0].Name()+")" || bd == "(("+q+" + param:"+B.Params[0].Name()+") + const:\".exe\")")
 	s := w.Summarize(P, Mode{Kind: mErr})
 	c.Evals += s.States
-	okP := len(s.Exits) > 0
+	okP := len(s.Exits) > 0 && prefix != ""
 	for _, e := range s.Exits {
-		d := desc(e.Ret.Results[0])
-		if !strings.HasPrefix(d, "call:strings.CutPrefix(") || !strings.HasSuffix(d, ","+q+")#0") {
-			okP = false
-		}
-		if !labelHas(e.Checked, "T("+strings.TrimSuffix(d, "#0")+"#1)") || !labelHas(e.Checked, "NE("+d+",const:\"\")") {
+		if !c20CutsPrefix(e, q, len(prefix)) {
 			okP = false
 		}
 	}
 	c.Check(okB && okP, "names/prefix-agreement", "binName(name) is the constant prefix + name (+ .exe on windows) and parsePluginName succeeds only by cutting that same constant prefix off a longer file name: the executable copied under its own base name is what Get(name) looks for", w.FnPos(P), fmt.Sprintf("binName returns %s; parse ok=%v", bd, okP))
+}
+
+// c20CutsPrefix: on this success exit the function returns its input X without the constant prefix q, and X is
+// strictly longer than q. Three spellings of the same computation are accepted:
+//
+//	(a) after, found := strings.CutPrefix(X, q) behind `found` and `after != ""`;
+//	(b) X[len(q):] behind strings.HasPrefix(X, q) and len(X) != len(q) (or > len(q), >= len(q)+1): HasPrefix says
+//	    X = q·r, the slice from len(q) is r — what CutPrefix hands back — and a length different from len(q) says r != "";
+//	(c) strings.TrimPrefix(X, q) behind strings.HasPrefix(X, q) (TrimPrefix then is X[len(q):]) and the same length
+//	    test, or a non-empty test of the result.
+//
+// In every spelling the prefix is the same constant q that binName prepends, and the rest is non-empty.
+func c20CutsPrefix(e *ExitSum, q string, n int) bool {
+	r := e.Ret.Results[0]
+	d := desc(r)
+	longer := func(X string) bool {
+		return labelHas(e.Checked, fmt.Sprintf("NE(len(%s),const:%d)", X, n)) || labelHas(e.Checked, fmt.Sprintf("GT(len(%s),const:%d)", X, n)) ||
+			labelHas(e.Checked, fmt.Sprintf("GE(len(%s),const:%d)", X, n+1))
+	}
+	// (a)
+	if strings.HasPrefix(d, "call:strings.CutPrefix(") && strings.HasSuffix(d, ","+q+")#0") {
+		return labelHas(e.Checked, "T("+strings.TrimSuffix(d, "#0")+"#1)") && labelHas(e.Checked, "NE("+d+",const:\"\")")
+	}
+	// (b)
+	if sl, ok := r.(*ssa.Slice); ok && sl.High == nil && sl.Max == nil && sl.Low != nil {
+		if b, isStr := sl.X.Type().Underlying().(*types.Basic); !isStr || b.Info()&types.IsString == 0 {
+			return false
+		}
+		X := desc(sl.X)
+		return desc(sl.Low) == fmt.Sprintf("const:%d", n) && labelHas(e.Checked, "T(call:strings.HasPrefix("+X+","+q+"))") && longer(X)
+	}
+	// (c)
+	if call, ok := r.(*ssa.Call); ok && calleeName(call) == "strings.TrimPrefix" && len(call.Call.Args) == 2 && desc(call.Call.Args[1]) == q {
+		X := desc(call.Call.Args[0])
+		return labelHas(e.Checked, "T(call:strings.HasPrefix("+X+","+q+"))") && (longer(X) || labelHas(e.Checked, "NE("+d+",const:\"\")"))
+	}
+	return false
 }
 
 // spilledRet resolves a defer-spilled result (`*r = v; rundefers; t = *r; return t`) to v.
